@@ -90,7 +90,7 @@ def LegalO : Option (List Char) → Prop
 def LegalContent (k : Content) : Prop := LegalS k.t ∧ LegalS k.v ∧ LegalO k.f ∧ LegalO k.is
 
 def SheetInv (s : Sheet) : Prop :=
-  Dense s.rows ∧ (∃ lo, SaveCols.RangesFrom lo s.cols) ∧ LegalS s.name ∧
+  Dense s.rows ∧ SaveCols.Wf s.cols ∧ LegalS s.name ∧
     ∀ i j, LegalContent (Grid.abs s.rows i j)
 
 def Inv (b : Book) : Prop :=
